@@ -231,6 +231,11 @@ func ResourceCorpus(packageRoot string, seed int64, variant, nRandom int) *Schem
 	ann4.ReadOnly = []string{"id", "f1/s", "meta"}
 	ann4.CreateOnly = []string{"identifier", "f10/s"}
 	s.Resources = append(s.Resources, ann4)
+	// an entity without any required field (optional and defaulted fields only): the empty object is a valid body, so a
+	// server or client that quietly replaces an unreadable body by {} is visible only here
+	allopt := collection("vr.allopt", nil, "allopt", "optId", P("int64"), R(ns, "KeyParams"))
+	allopt.Methods = restMethods(restMethodsCollection, true, false, nil, false)
+	s.Resources = append(s.Resources, allopt)
 
 	if nRandom > 0 {
 		randomResources(s, ns, seed, nRandom)
